@@ -127,7 +127,7 @@ fn main() {
     }
 
     // committed regression cases (minimal reproductions of repaired or previously reported failures) are replayed first
-    if let Ok(rd) = std::fs::read_dir(std::path::Path::new(vlib::run::VERIF_DIR).join("regress")) {
+    if let Ok(rd) = std::fs::read_dir(vlib::run::verif_dir().join("regress")) {
         let mut files: Vec<_> = rd.filter_map(|e| e.ok()).map(|e| e.path()).filter(|p| p.extension().map(|x| x == "json").unwrap_or(false)).collect();
         files.sort();
         for path in files {
@@ -161,10 +161,15 @@ fn main() {
     }
 
     let ctx = Ctx { id: id.clone(), tier, seed, start: Instant::now() };
-    let out = match vlib::props::run(&ctx) {
-        Some(o) => o,
-        None => {
+    let out = match std::panic::catch_unwind(|| vlib::props::run(&ctx)) {
+        Ok(Some(o)) => o,
+        Ok(None) => {
             eprintln!("unknown property {id}");
+            std::process::exit(2);
+        }
+        Err(p) => {
+            // a panic outside any generated case (set-up code of the check): never reported as a violation
+            eprintln!("INCONCLUSIVE property={id}: panic outside a generated case: {}", vlib::run::panic_msg(&p));
             std::process::exit(2);
         }
     };
